@@ -42,7 +42,8 @@ def parseCfgTok (su : Setup) (tok : String) : Option Setup :=
       let n ← n.toNat?
       let k ← k.toNat?
       let cob ← optNat cob
-      let nv ← nv.toNat?
+      -- `<nvars>h`: the harness maps every byte as two 4-bit halves; a byte write has the same effect
+      let nv ← (if nv.endsWith "h" then nv.dropRight 1 else nv).toNat?
       pure { su with cfg := { su.cfg with pdos := su.cfg.pdos ++ [(n, k)] },
                      pdoInit := su.pdoInit ++ [((n, k), ⟨cob, nv, List.replicate nv 0, none⟩)] }
     | _ => none
